@@ -7,12 +7,12 @@ from .common import Outcome, parallel, run_driver
 from .tlc import MachineryError
 
 INV = ["C08_NameFirst", "C08_PrefixSecond", "C08_CtorSeesEarlierOnly"]
-QUICK = dict(attr=["none", "xA", "xInt", "privA", "xA_class", "xA_base", "peer", "inhA"], ctor=["none", "xA", "peer"],
-             rx=["missing", "A", "B", "zero", "none"], rcx=["missing", "A", "none"], mode=["none", "xA", "c1", "yA"])
+QUICK = dict(attr=["none", "xA", "xInt", "privA", "xA_class", "xA_base", "peer", "inhA", "xCall"], ctor=["none", "xA", "peer"],
+             rx=["missing", "A", "B", "zero", "none", "func"], rcx=["missing", "A", "none"], mode=["none", "xA", "c1", "yA"])
 # about 330 000 robot definitions (TLC builds the universe as one set: it has to stay below 1 000 000 elements)
-THOROUGH = dict(attr=["none", "xA", "xInt", "xStr", "yA", "privA", "xA_class", "xA_init", "xA_base", "peer", "xA_peer", "inhA"],
+THOROUGH = dict(attr=["none", "xA", "xInt", "xStr", "yA", "privA", "xA_class", "xA_init", "xA_base", "peer", "xA_peer", "inhA", "xCall"],
                 ctor=["none", "xA", "peer", "priv"],
-                rx=["missing", "A", "B", "zero", "empty", "none", "list"], rcx=["missing", "A", "none"],
+                rx=["missing", "A", "B", "zero", "empty", "none", "list", "func"], rcx=["missing", "A", "none"],
                 mode=["none", "xA", "c1", "yA"])
 
 
